@@ -52,7 +52,15 @@ Collect(T0, target, direct, sentArg) ==
                      IN IF new = {} THEN done ELSE KeepFrom(new, done \cup new)
                  K0 == {n \in V : ti(n) > 0}
                  K == KeepFrom(K0, K0)
-                 U == {n \in K : sent /\ tis(n) = 0}
+                 \* a kept node stays sent if a sent parent outside the visited set refers to it (tis > 0), or a kept node
+                 \* that stays sent does; the other kept nodes are unsent (before fix "tryDelete: children of kept sent
+                 \* references stay sent" this was {n \in K : sent /\ tis(n) = 0} - finding KF-U)
+                 RECURSIVE SentFrom(_, _)
+                 SentFrom(S, done) ==
+                     LET new == ((UNION {Refs(T, n) : n \in S}) \cap K) \ done
+                     IN IF new = {} THEN done ELSE SentFrom(new, done \cup new)
+                 S0 == {n \in K0 : ~(sent /\ tis(n) = 0)}
+                 U == IF sent THEN K \ SentFrom(S0, S0) ELSE {}
                  D == V \ K
                  \* Dispose of every deleted node: children lose one indirect count, and one indirectsent count
                  \* (while positive) if the deleted node had been sent; no further collection
